@@ -561,7 +561,8 @@ fn run_job(scen: &Value, names: &[String], job: &Value, budget: usize, want_ops:
     // spin detection for the systematic search: a thread whose last step repeated its previous observation (same load / failed
     // compare-exchange / failed try-lock on the same cell with the same result, no write to that cell in between) is waiting;
     // scheduling it again is a stutter step, so it is left out of the choice set while another thread can run
-    let mut last_obs: Vec<Option<(OpKind, usize, u64, bool)>> = vec![None; n];
+    // (a waiting loop may read several cells per round: any period up to 4 counts)
+    let mut last_obs: Vec<Vec<(OpKind, usize, u64, bool)>> = vec![vec![]; n];
     let mut spinning: Vec<bool> = vec![false; n];
     let mut nsteps = 0usize;
     let mut drift: Option<Value> = None;
@@ -602,28 +603,28 @@ fn run_job(scen: &Value, names: &[String], job: &Value, budget: usize, want_ops:
                     _ => false,
                 };
                 if passive {
-                    let o = Some((d.op.kind, d.op.addr, d.val, d.ok));
-                    spinning[t] = last_obs[t] == o;
-                    last_obs[t] = o;
+                    let h = &mut last_obs[t];
+                    h.push((d.op.kind, d.op.addr, d.val, d.ok));
+                    if h.len() > 8 {
+                        h.remove(0);
+                    }
+                    let l = h.len();
+                    spinning[t] = (1..=4).any(|p| l >= 2 * p && h[l - p..] == h[l - 2 * p..l - p]);
                 } else {
                     spinning[t] = false;
-                    last_obs[t] = None;
+                    last_obs[t].clear();
                     // a write (or a lock transition) on a cell wakes up whoever is waiting on it
                     for u in 0..n {
-                        if u != t {
-                            if let Some((_, a, _, _)) = last_obs[u] {
-                                if a == d.op.addr {
-                                    spinning[u] = false;
-                                    last_obs[u] = None;
-                                }
-                            }
+                        if u != t && last_obs[u].iter().any(|o| o.1 == d.op.addr) {
+                            spinning[u] = false;
+                            last_obs[u].clear();
                         }
                     }
                 }
             }
             if dones.is_empty() {
                 spinning[t] = false;
-                last_obs[t] = None;
+                last_obs[t].clear();
             }
             let mut desc = String::from("CallStart");
             if let Pend::Op(_) = pend {
